@@ -201,6 +201,38 @@ Section TP.
   Lemma plain_app a b : plain (a ++ b) = plain a && plain b.
   Proof. apply forallb_app. Qed.
 
+  (** a "--" stops the scan for a help token: whatever follows it is not looked at *)
+  Lemma help_index_dd pre more : plain pre = true -> help_index (pre ++ s_dd :: more) = None.
+  Proof.
+    intros Hp. induction pre as [|t pre IH]; cbn [List.app help_index].
+    - now rewrite str_eqb_refl.
+    - cbn [plain forallb] in Hp. apply andb_true_iff in Hp as [Ht Hp].
+      apply andb_true_iff in Ht as [Ht1 Ht2]. apply negb_true_iff in Ht1, Ht2.
+      rewrite Ht2, Ht1. now rewrite (IH Hp).
+  Qed.
+
+  (** ... so on a command without sub-commands the whole vector, help tokens after the "--" included, is
+      validated against the spec like any other data: the result is the one of the addressed command
+      ([leaf_result]) or of its rejection *)
+  Theorem parse_cmd_help_after_dd c i policy path pre more levels paths filled err :
+    c_subs c = [] -> plain pre = true ->
+    parse_cmd c i policy path (pre ++ s_dd :: more) levels paths filled err =
+    match fsm_parse i (pre ++ s_dd :: more) with
+    | PFuelOut => mkResult RFuel [] err filled
+    | PUsage => reject_result c i policy path EUsage err filled
+    | PConv => reject_result c i policy path EConv err filled
+    | PAccept o a => leaf_result c i policy path (levels ++ [mkLevel (c_before c) (c_after c)]) (paths ++ [path]) err
+                                 (filled ++ [(path, o, a)])
+    end.
+  Proof.
+    intros Hs Hp. destruct c as [n d ld h sp pol ds b act af subs]. cbn [c_subs] in Hs. subst subs.
+    cbn [parse_cmd c_subs]. rewrite (help_index_dd _ _ Hp).
+    assert (Hn : forall args, opts_and_args [] args = length args)
+      by (induction args as [|a args IHa]; cbn [opts_and_args existsb length]; [reflexivity | now rewrite IHa]).
+    rewrite Hn, firstn_all, skipn_all. unfold reject_result, leaf_result.
+    destruct (fsm_parse i _) as [o a| | |]; cbn [c_action c_before c_after]; try reflexivity.
+  Qed.
+
   (** the long help of the addressed command; nothing is validated, nothing runs *)
   Definition help_result (c : cmd) (i : inited) (policy : nat) (path : list str) (err : list str)
              (filled : list (list str * list container * list container)) : result :=
